@@ -80,7 +80,7 @@ BOUNDS = {
     "quick": {
         "pipe": "lists of <=2 of 13 filters x 6 default_filters x 5 page settings (6 for <=1 filter) x positions {body, def} (all 5 for <=1 filter) x 5 values; "
         "3-filter lists containing n or >=2 user filters x 3 default_filters x 3 page settings x body x 2 values",
-        "tagf": "filter= lists of <=2 x {def, buffered def called plain and with |n, anonymous block, named block, text} x buffer_filters 3 (defs) / 1 x 3 (D,P) settings x 2 values; "
+        "tagf": "bodies at the boundary (nothing between the tags, one blank, an empty <%text> section) x filter= lists of <=1 x 6 constructs; filter= lists of <=2 x {def, buffered def called plain and with |n, anonymous block, named block, text} x buffer_filters 3 (defs) / 1 x 3 (D,P) settings x 2 values; "
         "buffered def without filter= x 3 calling filters x 3 buffer_filters x 6 D x 6 P x 5 values",
         "nest": "36 ordered (outer, inner) filter pairs of {decode.utf8, decode.latin1, decode.ascii, h, x, f1} x inner pipeline run in {def, buffered def, capture(def), second template with local filter, second template with default_filters} x outer filter given {locally after n, as default_filters}; "
         "36 pairs in one list x {n + list, default_filters=[] + list, default_filters=[first] + [second]} x 4 values (utf-8 / latin-1 / ascii bytes, str)",
@@ -97,7 +97,7 @@ BOUNDS = {
     "thorough": {
         "pipe": "lists of <=2 x 6 default_filters x 6 page settings x 5 positions x 5 values; 3-filter lists x 6 default_filters x 5 page settings x positions {body, def, call} x 5 values; "
         "4-filter lists containing n or >=2 user filters x 3 default_filters x 3 page settings x body x 2 values",
-        "tagf": "filter= lists of <=3 x 7 constructs (quick's + def called with |n) x buffer_filters 3/1 x 6 (D,P) settings x 2 values; buffered def without filter= as quick",
+        "tagf": "boundary bodies as quick with lists of <=2; filter= lists of <=3 x 7 constructs (quick's + def called with |n) x buffer_filters 3/1 x 6 (D,P) settings x 2 values; buffered def without filter= as quick",
         "bind": "as quick",
         "nest": "as quick",
         "vals": "as quick",
@@ -200,8 +200,9 @@ TAG_CONSTRUCTS = [
 ]
 
 
-def tagf_prog(L, cons, ce, B, D, P):
-    inner = [["text", " <t> "], ["expr", "v", [], None]]
+def tagf_prog(L, cons, ce, B, D, P, inner=None):
+    if inner is None:
+        inner = [["text", " <t> "], ["expr", "v", [], None]]
     if cons == "def-f":
         body = [["def", "d", {"filter": list(L), "buffered": False}, inner], ["text", "["], ["expr", "d()", ce, None], ["text", "]"]]
     elif cons == "def-bf":
@@ -258,6 +259,18 @@ def gen_tagf(tier, seed):
             for B in Bs:
                 for D, P in DPs:
                     yield tagf_prog(L, cons, ce, B, D, P), (0, 1)
+    # bodies at the boundary: nothing at all between the tags, a single blank, an empty <%text> section - the filter= list is
+    # applied to "" / " " all the same (a tagging filter shows it)
+    for inner, iname in (([], "empty"), ([["text", " "]], "blank"), ([["texttag", "", None]], "empty-text-section")):
+        for L in lists_upto(F, 1 if tier == "quick" else 2):
+            for cons, ce in TAG_CONSTRUCTS:
+                if cons == "text-f":
+                    continue
+                for B in (B_ALL if cons.startswith("def") else [B_ALL[2]]):
+                    for D, P in DPs[:2]:
+                        p_ = tagf_prog(L, cons, ce, B, D, P, inner=[list(x) for x in inner])
+                        p_["pos"] = cons + ":" + iname
+                        yield p_, (0,)
     # buffered def without a filter= attribute: only buffer_filters apply
     for ce in ([], ["n"], ["f2"]):
         for B in B_ALL:
